@@ -190,7 +190,7 @@ func runC02(c *Ctx) error {
 	frags := []int{0, 1, 3, 17, 64, 1000}
 	for i := 0; i < n; i++ {
 		r := c.rng.Fork()
-		opts := GenOpts{MinIn: 2, MaxIn: 12, MinGates: 1, MaxGates: 50, MaxOut: 9, Overwrite: true, TwoParty: true}
+		opts := GenOpts{MinIn: 2, MaxIn: 12, MinGates: 1, MaxGates: 50, MaxOut: 9, Overwrite: true, TwoParty: true, AllowEmptyParty: true}
 		if i%8 == 7 {
 			opts.MinGates, opts.MaxGates = 80, 160
 		}
@@ -251,6 +251,9 @@ func runC02(c *Ctx) error {
 		c.Hist("ot:" + kind.name)
 		c.Hist(fmt.Sprintf("maxfrag:%d", frag))
 		c.Hist(fmt.Sprintf("n1:%d", n1))
+		if n0 == 0 || n1 == 0 {
+			c.Hist("party-with-zero-input-bits")
+		}
 		c.Eval(fmt.Sprintf("%s|%s|%s|%s|%d", circuitText(circ), bitsString(x), bitsString(y), kind.name, frag),
 			circ.Stats[circuit.AND]+circ.Stats[circuit.OR]+circ.Stats[circuit.INV] > 0)
 		if bad != "" {
